@@ -117,6 +117,8 @@ def c01(run):
         # "never dropped by lazy deletion on read / DeleteExpired": reads of expired-uncleaned keys racing writers
         sched_runs(run, h, ("cache", "cacheof"), "lazy", ("NONLIN", "PREFILL"), quick=(150, 6))
         trace_cache_runs(run, h, quick=(40, 4), focuses=("", "lazy"))
+        if run.tier != "quick":
+            sched_runs(run, h, ("cache", "cacheof"), "", ("NONLIN", "PREFILL"), quick=(200, 6))
     return R.finish(run, GAPS["C01"])
 
 
@@ -315,6 +317,9 @@ def c09(run):
         # reported instants under concurrency: GetWithExpiration / GetWithTTL racing writers that re-arm the key
         sched_runs(run, h, ("cache", "cacheof"), "lazy", ("NONLIN", "PREFILL"), quick=(200, 6))
         trace_cache_runs(run, h, quick=(40, 4), focuses=("", "lazy"))
+        if run.tier != "quick":
+            # deeper tiers: writers racing resizes as well (re-armed instants must survive a table copy)
+            sched_runs(run, h, ("cache", "cacheof"), "", ("NONLIN", "PREFILL"), quick=(200, 6))
     return R.finish(run, GAPS.get("C09", []))
 
 
